@@ -40,7 +40,7 @@ def plan(tier):
             "min_nontrivial": 60,
             "min_counters": {"instances_tracked": 3000, "strict_histories": 100, "query_histories": 200,
                              "size_series_compared": 400, "containers_watched": 2000, "bookkeeping_audits": 400,
-                             "long_lived_queries": 300}}
+                             "long_lived_queries": 300, "explicit_domain_loops": 100}}
 
 
 def setup(ctx):
@@ -185,6 +185,46 @@ def long_lived_query(om, spec, C):
         C["long_lived_audit_skipped_internals_differ:" + type(e).__name__] += 1
     del keep, q, x
     return out
+
+
+def explicit_domain_loop(om, spec, C):
+    from krrood.entity_query_language.entity import entity, let
+    from krrood.entity_query_language.quantify_entity import an
+    from krrood.entity_query_language.symbol_graph import SymbolGraph
+    from vlib import holders
+    holders.clear_known_holders()
+    SymbolGraph().clear()
+    SymbolGraph()
+    gc.collect()
+    kept = [om.Org(f"kept{i}") for i in range(2)]
+    per_round, rounds = 2 + spec["k"], 8
+
+    def one_round(r):
+        # everything created here lives only in this frame
+        orgs = [om.Org(f"r{r}_{i}") for i in range(per_round)]
+        person = om.Person(f"r{r}_p")
+        person.works_for = orgs[0]
+        for a_, b_ in zip(orgs, orgs[1:]):
+            a_.part_of.append(b_)
+        x = let(om.Org, list(kept), name="x")
+        q = an(entity(x)) if spec["longq"] == "entity" else an(entity(x, x.name != "nobody"))
+        return len(list(q.evaluate()))
+
+    for r in range(rounds):
+        if one_round(r) != len(kept):
+            return ["a query over an explicit domain did not return its domain"]
+        holders.clear_known_holders()
+        gc.collect()
+    C["explicit_domain_loops"] += 1
+    held = [w for w in SymbolGraph().wrapped_instances if not isinstance(getattr(w, "instance", None), om.PropertyDescriptor)]
+    dead = [w for w in held if getattr(w, "instance", None) is None]
+    # the evaluation at the start of a round sweeps what earlier rounds left: at most the last round is still there
+    bound = len(kept) + 2 * (per_round + 1)
+    del kept
+    if len(held) > bound:
+        return [f"after {rounds} rounds of create / relate / query (explicit domains) / discard the graph keeps {len(held)} wrapped "
+                f"instances ({len(dead)} of them dead), one round creates {per_round + 1}: nothing ever sweeps them"]
+    return []
 
 
 def discover_containers():
@@ -388,6 +428,11 @@ def run(spec, ctx):
     if spec.get("longq"):
         lq_problems = long_lived_query(om, spec, C)
         problems.extend(lq_problems)
+    holders.clear_known_holders()
+    # ---- 5. a program whose queries all have explicit domains, and that never sweeps the graph itself: creating,
+    #         relating, querying and discarding in a loop must not let the bookkeeping of the discarded instances pile up
+    if spec.get("longq") in ("entity", "cond"):
+        problems.extend(explicit_domain_loop(om, spec, C))
     holders.clear_known_holders()
     shape = ",".join(op[0] + (":" + op[3] if op[0] == "relate" else "") for op in spec["ops"]) + ("|longq" if spec.get("longq") else "")
     if problems:
